@@ -7,6 +7,7 @@
 package commit
 
 import (
+	"reflect"
 	"io"
 	"unsafe"
 
@@ -180,3 +181,26 @@ func vModelReadFull(r io.Reader, buf []byte) (int, error) {
 
 // vHavocRange: the elements of the slice take unknown values (verifier intrinsic).
 func vHavocRange(s any) {}
+
+// vDistinctBacking reports that two slices do not share memory.
+func vDistinctBacking(a, b any) bool {
+	x, y := reflect.ValueOf(a), reflect.ValueOf(b)
+	if x.Cap() == 0 || y.Cap() == 0 {
+		return true
+	}
+	px, py := x.Pointer(), y.Pointer()
+	ex := px + uintptr(x.Cap())*x.Type().Elem().Size()
+	ey := py + uintptr(y.Cap())*y.Type().Elem().Size()
+	return ex <= py || ey <= px
+}
+
+// VPos is the reader's position inside its window (0 after Rewind); VRewound reports the state Rewind leaves.
+func VPos(r *Reader) int { return r.last }
+
+// VRewound reports that the reader is at the start of its window with the run's base offset.
+func VRewound(r *Reader) bool { return r.last == 0 && r.Offset == r.start }
+
+// VPlace puts the reader r on the run of b that starts at byte s (base offset prev), positioned at byte pos.
+func VPlace(r *Reader, b *Buffer, s, pos int, prev int32) {
+	*r = Reader{buffer: b.buffer[s:], last: pos - s, Offset: prev, start: prev, x0: uint32(s), x1: uint32(len(b.buffer)), parent: b}
+}
